@@ -483,14 +483,19 @@ func (s *Server) handleRPCReplenishAccounts(stream net.Conn) error {
 
 	var depositSum types.Currency
 	var costResp rhp4.RPCReplenishAccountsResponse
+	// an account may be listed more than once; later entries must see the
+	// deposits of earlier ones or the account ends up above the target
+	credited := make(map[rhp4.Account]types.Currency)
 	for i, balance := range balances {
 		deposit := rhp4.AccountDeposit{
 			Account: req.Accounts[i],
 		}
 
+		balance = balance.Add(credited[deposit.Account])
 		value, underflows := req.Target.SubWithUnderflow(balance)
 		if !underflows {
 			deposit.Amount = value
+			credited[deposit.Account] = credited[deposit.Account].Add(value)
 		}
 		depositSum = depositSum.Add(deposit.Amount)
 		costResp.Deposits = append(costResp.Deposits, deposit)
@@ -555,13 +560,18 @@ func (s *Server) handleRPCReplenishPools(stream net.Conn) error {
 
 	var depositSum types.Currency
 	var costResp rhp4.RPCReplenishAccountsResponse
+	// a pool may be listed more than once; later entries must see the
+	// deposits of earlier ones or the pool ends up above the target
+	credited := make(map[rhp4.Account]types.Currency)
 	for i, balance := range balances {
 		deposit := rhp4.AccountDeposit{
 			Account: req.Accounts[i],
 		}
+		balance = balance.Add(credited[deposit.Account])
 		value, underflows := req.Target.SubWithUnderflow(balance)
 		if !underflows {
 			deposit.Amount = value
+			credited[deposit.Account] = credited[deposit.Account].Add(value)
 		}
 		depositSum = depositSum.Add(deposit.Amount)
 		costResp.Deposits = append(costResp.Deposits, deposit)
